@@ -187,10 +187,11 @@ def onNew (s : St) (rest : String) : St := Id.run do
   s := { s with sp := Rules.parse rest.toList }
   return s
 
-def onMove (s : St) (rest : String) : St := Id.run do
+def onMove (s : St) (rest : String) (light : Bool := false) : St := Id.run do
   let mut s := s
   let (ml, _) := s.mb.legalMoves
-  let im := parseDump s.lastD
+  -- a light move line (`m`) comes without a state dump before it (very long games): the earlier position's key is the model's
+  let im := if light then { parseDump s.lastD with key := s.mb.zkey.toNat } else parseDump s.lastD
   let t := rest.splitOn ":"
   let src := (t.getD 0 "0").toNat!
   let dst := (t.getD 1 "0").toNat!
@@ -320,6 +321,7 @@ def step (s : St) (line : String) : St :=
   | "C" => onCheck s rest
   | "K" => onKey s rest
   | "M" => onMove s rest
+  | "m" => onMove s rest true
   | "U" => onUnmake s
   | "P" => onPerturb s rest
   | "Y" => onPurity s rest
